@@ -132,7 +132,117 @@ def run_failed_make():
     os._exit(0)
 
 
+def run_concurrent_make():
+    """overlapping makegateway calls: `b c id` starts call c in its own thread and lets it run until it is refused or stands
+    right before its process would be created (gateway_io.create_io is gated); `f c fault` lets it go on (fault: the
+    interpreter cannot be started) and waits for the call to return"""
+    import threading
+
+    from execnet import gateway_io
+
+    group = execnet.Group()
+    emit({"phase": "ready", "pids": {}})
+    tl = threading.local()
+    gates = {}
+    results = {}
+    orig_create_io = gateway_io.create_io
+
+    def gated_create_io(spec_, execmodel):
+        g = gates[tl.call]
+        g["arrived"].set()
+        g["go"].wait()
+        if g["fault"]:
+            raise OSError("injected: the interpreter cannot be started")
+        return orig_create_io(spec_, execmodel=execmodel)
+
+    gateway_io.create_io = gated_create_io
+
+    def call(c, idn):
+        tl.call = c
+        try:
+            gw = group.makegateway("popen" if idn is None else "popen//id=gw%d" % idn)
+            results[c] = ("ok", gw.id)
+        except ValueError as e:
+            results[c] = ("ValueError", str(e))
+        except OSError as e:
+            results[c] = ("OSError", str(e))
+        except BaseException as e:  # noqa: BLE001
+            results[c] = (type(e).__name__, str(e))
+        finally:
+            gates[c]["done"].set()
+
+    outs = []
+    for op in spec["ops"]:
+        kind, c, arg = op
+        if kind == "b":
+            if c in gates:
+                outs.append("noten")
+                continue
+            gates[c] = {"arrived": threading.Event(), "go": threading.Event(), "done": threading.Event(), "fault": False}
+            threading.Thread(target=call, args=(c, arg), daemon=True).start()
+            t_end = time.time() + 20.0
+            while not (gates[c]["arrived"].is_set() or gates[c]["done"].is_set()) and time.time() < t_end:
+                time.sleep(0.002)
+            if gates[c]["done"].is_set():
+                r = results[c]
+                outs.append("taken" if r[0] == "ValueError" else "unexpected:%s" % (r,))
+                gates[c]["finished"] = True
+            elif gates[c]["arrived"].is_set():
+                outs.append("res%s" % group_id_of(group, c, arg))
+            else:
+                outs.append("stuck")
+        else:
+            g = gates.get(c)
+            if g is None or g.get("finished"):
+                outs.append("noten")
+                continue
+            g["fault"] = bool(arg)
+            g["go"].set()
+            if not g["done"].wait(40.0):
+                outs.append("stuck")
+                continue
+            g["finished"] = True
+            r = results[c]
+            if r[0] == "ok":
+                outs.append("ok%s" % r[1][2:])
+            elif r[0] == "OSError":
+                outs.append("failed")
+            elif r[0] == "ValueError":
+                outs.append("refused")
+            else:
+                outs.append("unexpected:%s" % (r,))
+    members = [gw.id for gw in group]
+    member_pids = sorted(gw._io.popen.pid for gw in group)
+    reserved = sorted(group._reserved_ids)
+    kids = descendants(os.getpid())
+    orphans = [p for p in kids if p not in member_pids]
+    t0 = time.time()
+    error = None
+    try:
+        group.terminate(timeout=1.0)
+    except BaseException as e:  # noqa: BLE001
+        error = "%s: %s" % (type(e).__name__, e)
+    t_end = time.time() + 1.0
+    while True:
+        after = [p for p in descendants(os.getpid()) if proc_state(p) not in (None, "Z")]
+        if not after or time.time() > t_end:
+            break
+        time.sleep(0.05)
+    emit({"phase": "done", "hang": False, "outs": outs, "members": members, "reserved": reserved, "norphans": len(orphans),
+          "after_terminate": after, "terminate_elapsed": time.time() - t0, "error": error})
+    os._exit(0)
+
+
+def group_id_of(group, c, arg):
+    # the id a call standing at the gate has reserved: the explicit one, or the automatic one just allocated
+    if arg is not None:
+        return str(arg)
+    return str(group._autoidcounter - 1)
+
+
 if spec["kind"] == "terminate":
     run_terminate()
+elif spec["kind"] == "concurrent-make":
+    run_concurrent_make()
 else:
     run_failed_make()
